@@ -87,15 +87,17 @@ let handle (x : sexp) : (string * string) list =
       | Some [d; n; v] -> (doc_of d, opt_name n, json_of v)
       | _ -> raise (Sexp_error "orig") in
     let nestedvar = List.exists (fun f -> f = S "nestedvar") flags in
+    let malformed = List.exists (fun f -> f = S "malformed") flags in
     let tagsfx = if nestedvar then " [nestedvar]" else "" in
     let go = match find "go" rest with Some g -> g | None -> raise (Sexp_error "go") in
     let stage, smsg = match find "stage" go with Some [S st; S m] -> (st, m) | _ -> raise (Sexp_error "stage") in
     (* the generator's operations are valid and executable: check the second on the model *)
-    List.iteri (fun i u ->
+    if not malformed then List.iteri (fun i u ->
         if not (orig_executable_b s u odoc oname ovars) then
           fail "error" (Printf.sprintf "generator: original not executable by the reference executor: %s universe %d %s" id i
                           (show_resp (execute (big_fuel odoc odoc) s u Mono odoc oname ovars)))) us;
-    if stage <> "" then
+    if malformed then ()
+    else if stage <> "" then
       fail "specfail" (Printf.sprintf "valid_preserved/%s %s the engine sequence rejects a valid request: %s%s" stage id smsg tagsfx)
     else begin
       let get3 tag = match find tag go with
@@ -153,7 +155,7 @@ let handle (x : sexp) : (string * string) list =
      | _ -> ());
     (* model correspondence, pass by pass on Go's own intermediate trees *)
     (match find "chain" rest with
-     | Some [L [A "failed"; S p; S m]] -> fail "error" (Printf.sprintf "chain: pass %s failed on %s: %s" p id m)
+     | Some [L [A "failed"; S p; S m]] -> if not malformed then fail "error" (Printf.sprintf "chain: pass %s failed on %s: %s" p id m)
      | Some (d0 :: v0 :: steps) ->
        let vars = vars_of_json (json_of v0) in
        let cur = ref (doc_of d0) in
@@ -173,14 +175,14 @@ let handle (x : sexp) : (string * string) list =
              if got <> want then
                fail "mismatch" (Printf.sprintf "corr:C03/%s %s input=%s go=%s" p id "(see case)" (print_sexp d));
              cur := want
-           | L [A "failed"; S p; S m] -> fail "error" (Printf.sprintf "chain: pass %s failed on %s: %s" p id m)
+           | L [A "failed"; S p; S m] -> if not malformed then fail "error" (Printf.sprintf "chain: pass %s failed on %s: %s" p id m)
            | y -> raise (Sexp_error ("step: " ^ print_sexp y))) steps;
        (* and the composition *)
        if List.for_all (function L (A "step" :: _) -> true | _ -> false) steps && steps <> [] then
          if norm_selections s vars first <> !cur then
            fail "mismatch" (Printf.sprintf "corr:C03/composition %s" id)
      | _ -> raise (Sexp_error "chain"));
-    if !out = [] then [("ok", (if doc_has_redex odoc then "nt " else "tr ") ^ id)] else List.rev !out
+    if !out = [] then [("ok", (if doc_has_redex odoc then "nt " else "tr ") ^ id ^ (if malformed then " malformed" else ""))] else List.rev !out
   | _ -> raise (Sexp_error "case")
 
 let () =
